@@ -29,7 +29,7 @@ var coldFirst = map[string]func(){
 func TestColdStart(t *testing.T) {
 	vkit.ColdMain(t, "C12", coldFirst, func(w *vkit.W) {
 		defer configure(16)()
-		docs := []string{`{"value":3,"unit":"KiB"}`, `{"unit":"kB","value":2}`, `{"VALUE":1,"Unit":"B"}`, `{"value":1}`, `{"unit":"B"}`, `{"x":{"value":[1,{"unit":"kB"}]},"value":7,"unit":"MB"}`,
+		docs := []string{`{"x":[{"y":[1,2,{"z":null}]}],"VALUE":3,"Unit":"KiB"}`, `{"x":1,"value":3,"unit":"B"}`, `{"value":1,"unit":"B"}`, `"1 000 kB"`, `"1kB"`, "1024", "1 2", "1 KiB", `{"unit":"MB","value":2}`, `{"value":1`, `{"value":3,"unit":"KiB"}`, `{"unit":"kB","value":2}`, `{"VALUE":1,"Unit":"B"}`, `{"value":1}`, `{"unit":"B"}`, `{"x":{"value":[1,{"unit":"kB"}]},"value":7,"unit":"MB"}`,
 			`{"value":1,"value":2,"unit":"B"}`, `{"value":"1","unit":"B"}`, `{"value":1,"unit":5}`, `"1 kB"`, `"x"`, "10", "1.5", "-1", "null", "true", "[]", "[1]", `{"value":1,"unit":"kB"} x`, `{"value":1,"unit":"kB"`, "", " 7 ", `{}`}
 		for _, doc := range docs {
 			for rule := 0; rule < 16; rule++ {
